@@ -795,8 +795,54 @@ def expand_constant_dispatch(tree):
                 and n.func.value.id in tables and len(n.args) == 1 and not n.keywords:
             gets[n.func.value.id] = gets.get(n.func.value.id, 0) + 1
     ok_tables = {t for t in tables if uses.get(t, 0) == gets.get(t, 0) + 1 and gets.get(t, 0) >= 1}
-    if not ok_tables:
+    # second form: ``if k in TABLE: ... TABLE[k] ...`` -- the table is only ever tested for
+    # membership and indexed
+    member = {}
+    for n in ast.walk(tree):
+        if isinstance(n, ast.Compare) and len(n.ops) == 1 and isinstance(n.ops[0], ast.In) and isinstance(n.comparators[0], ast.Name) \
+                and n.comparators[0].id in tables and isinstance(n.left, ast.Name):
+            member[n.comparators[0].id] = member.get(n.comparators[0].id, 0) + 1
+        elif isinstance(n, ast.Subscript) and isinstance(n.value, ast.Name) and n.value.id in tables and isinstance(n.ctx, ast.Load) \
+                and isinstance(n.slice, ast.Name):
+            member[n.value.id] = member.get(n.value.id, 0) + 1
+    in_tables = {t for t in tables if t not in ok_tables and uses.get(t, 0) == member.get(t, 0) + 1 and member.get(t, 0) >= 2}
+    if not ok_tables and not in_tables:
         return tree
+
+    def expand_membership(st):
+        # ``if k in TABLE: B [else: O]``  ->  ``if k == key1: B[TABLE[k] := v1] elif ... else: O``
+        t = st.test
+        if not (isinstance(t, ast.Compare) and len(t.ops) == 1 and isinstance(t.ops[0], ast.In) and isinstance(t.left, ast.Name)
+                and isinstance(t.comparators[0], ast.Name) and t.comparators[0].id in in_tables):
+            return None
+        key, tname = t.left.id, t.comparators[0].id
+        table = tables[tname]
+        for s2 in st.body:
+            for n in ast.walk(s2):
+                if isinstance(n, ast.Name) and n.id == key and not isinstance(n.ctx, ast.Load):
+                    return None
+                if isinstance(n, ast.Name) and n.id == tname:
+                    par_ok = any(isinstance(m, ast.Subscript) and m.value is n and is_name_node(m.slice, key) for m in ast.walk(s2))
+                    if not par_ok:
+                        return None
+        chain = list(st.orelse)
+        for k, v in reversed(list(zip(table.keys, table.values))):
+            class Put(ast.NodeTransformer):
+                def visit_Subscript(self, n):
+                    if isinstance(n.value, ast.Name) and n.value.id == tname and is_name_node(n.slice, key):
+                        return ast.copy_location(copy.deepcopy(v), n)
+                    self.generic_visit(n)
+                    return n
+            body = [_BetaReduce().visit(Put().visit(copy.deepcopy(s2))) for s2 in st.body]
+            test = ast.Compare(left=ast.Name(id=key, ctx=ast.Load()), ops=[ast.Eq()], comparators=[copy.deepcopy(k)])
+            node = ast.If(test=test, body=body, orelse=chain)
+            ast.copy_location(node, st)
+            chain = [node]
+        ast.fix_missing_locations(chain[0])
+        return chain[0]
+
+    def is_name_node(e, name):
+        return isinstance(e, ast.Name) and e.id == name
 
     def blocks_of(st):
         for f in ('body', 'orelse', 'finalbody'):
@@ -836,6 +882,11 @@ def expand_constant_dispatch(tree):
                         ast.copy_location(chain, nxt)
                     ast.fix_missing_locations(chain)
                     block[i:i + 2] = [chain]
+                    continue
+            if isinstance(st, ast.If) and in_tables and func is not None:
+                rep = expand_membership(st)
+                if rep is not None:
+                    block[i] = rep
                     continue
             for b in blocks_of(st):
                 visit(b, st if isinstance(st, (ast.FunctionDef, ast.AsyncFunctionDef)) else func)
@@ -1432,6 +1483,10 @@ _OPERATOR_BIN = {'add': ast.Add, 'sub': ast.Sub, 'mul': ast.Mult, 'truediv': ast
                  'lshift': ast.LShift, 'rshift': ast.RShift, 'matmul': ast.MatMult}
 
 
+_OPERATOR_UN = {'invert': ast.Invert, 'inv': ast.Invert, 'neg': ast.USub, 'pos': ast.UAdd,
+                '__invert__': ast.Invert, '__neg__': ast.USub, '__pos__': ast.UAdd}
+
+
 class _OperatorCalls(ast.NodeTransformer):
     """``operator.gt(a, b)`` is ``a > b`` (likewise the other comparison / arithmetic functions of
     the standard operator module, called directly with two positional arguments); only in a
@@ -1445,6 +1500,9 @@ class _OperatorCalls(ast.NodeTransformer):
                 return ast.copy_location(ast.Compare(left=node.args[0], ops=[_OPERATOR_CMP[f.attr]()], comparators=[node.args[1]]), node)
             if f.attr in _OPERATOR_BIN:
                 return ast.copy_location(ast.BinOp(left=node.args[0], op=_OPERATOR_BIN[f.attr](), right=node.args[1]), node)
+        if isinstance(f, ast.Attribute) and isinstance(f.value, ast.Name) and f.value.id == 'operator' \
+                and len(node.args) == 1 and not node.keywords and not isinstance(node.args[0], ast.Starred) and f.attr in _OPERATOR_UN:
+            return ast.copy_location(ast.UnaryOp(op=_OPERATOR_UN[f.attr](), operand=node.args[0]), node)
         return node
 
     def visit_Expr(self, node):
